@@ -1,6 +1,7 @@
 package abs
 
 import (
+	"encoding/json"
 	"fmt"
 	"math/big"
 	"reflect"
@@ -70,10 +71,30 @@ func (t *Tokens) ToToken(real string) string {
 	if tok, ok := t.fwd[real]; ok {
 		return tok
 	}
-	tok := "g" + strconv.Itoa(len(t.fwd)+1)
+	n := len(t.fwd) + 1
+	tok := "g" + strconv.Itoa(n)
+	for {
+		if _, used := t.back[tok]; !used {
+			break
+		}
+		n++
+		tok = "g" + strconv.Itoa(n)
+	}
 	t.fwd[real] = tok
 	t.back[tok] = real
 	return tok
+}
+
+// Bind makes tok the token of a real uuid (used when replaying a recorded
+// trace whose server-chosen uuids differ from run to run).
+func (t *Tokens) Bind(tok, real string) {
+	t.mu.Lock()
+	defer t.mu.Unlock()
+	if old, ok := t.back[tok]; ok {
+		delete(t.fwd, old)
+	}
+	t.fwd[real] = tok
+	t.back[tok] = real
 }
 
 // ---------------------------------------------------------------- atoms
@@ -549,3 +570,12 @@ func DefaultAbs(c Col) interface{} {
 		return []interface{}{}
 	}
 }
+
+func sameAbs(a, b interface{}) bool {
+	ja, _ := json.Marshal(a)
+	jb, _ := json.Marshal(b)
+	return string(ja) == string(jb)
+}
+
+// IsDefaultAbs reports whether an abstract value is the column's default.
+func IsDefaultAbs(c Col, v interface{}) bool { return sameAbs(v, DefaultAbs(c)) }
